@@ -55,16 +55,29 @@ class _Replay:
     def __init__(self):
         from dask.utils import SerializableLock
         self.cls = SerializableLock
-        self.prefix = f"c53-{next(_uniq)}-"
+        self.num = next(_uniq)
+        self.prefix = f"c53-{self.num}-"
         self.objs = []        # index = model object id; None once dropped
         self.tokens = []      # abstract token of every object ever created: ("e", n) | ("u", k)
         self.uuid_real = []   # k -> real uuid string
         self.slots = []       # (bytes, abstract token)
         self.events = []
         self.acquire_results = []   # (event index, real outcome)
+        self.with_locked = []
 
     def real_token(self, t):
-        return self.prefix + str(t[1]) if t[0] == "e" else self.uuid_real[t[1]]
+        """explicit tokens of several hashable types (str, int, tuple, bytes), unique to this case"""
+        if t[0] != "e":
+            return self.uuid_real[t[1]]
+        n = t[1]
+        kind = n % 4
+        if kind == 0:
+            return self.prefix + str(n)
+        if kind == 1:
+            return 10 ** 9 + (self.num + 1) * 16 + n
+        if kind == 2:
+            return (self.prefix, n)
+        return (self.prefix + str(n)).encode()
 
     def add(self, obj, t):
         self.objs.append(obj)
@@ -75,16 +88,23 @@ class _Replay:
         if kind == "new":
             n = op[1]
             if n is None or n == "falsy":
-                falsy = {None: None, "falsy": ""}[n]
+                falsy = ["", 0, (), b"", None, False][op[2] % 6] if len(op) > 2 else ""
                 o = self.cls(falsy) if n == "falsy" else self.cls()
                 t = ("u", len(self.uuid_real))
                 self.uuid_real.append(o.token)
                 self.events.append([Sym("new"), None])
             else:
-                o = self.cls(self.prefix + str(n))
+                o = self.cls(self.real_token(("e", n)))
                 t = ("e", n)
                 self.events.append([Sym("new"), n])
             self.add(o, t)
+        elif kind == "with":
+            o = self.objs[op[1]]
+            with o:
+                self.with_locked.append(bool(o.locked()))
+            self.acquire_results.append(True)
+            self.events.append([Sym("acquire"), op[1]])
+            self.events.append([Sym("release"), op[1]])
         elif kind == "copy":
             i, how = op[1], op[2]
             src = self.objs[i]
@@ -172,6 +192,14 @@ def case_history(ctx, inp):
         ctx.eq("non-blocking acquire outcomes", model[1], rp.acquire_results)
         real_reg = [rp.real_token(t) in rp.cls._locks for t in toks]
         ctx.eq("token present in SerializableLock._locks", model[2], real_reg)
+        ctx.eq("locked() of every live object", [m_objs[i] in model[3] for i in sorted(m_objs)],
+               [bool(rp.objs[i].locked()) for i in live])
+        if not all(rp.with_locked):
+            ctx.fail("inside `with lock:` the lock does not report locked()", observed=rp.with_locked)
+        if rp.with_locked:
+            ctx.branch("context-manager")
+        if any(t[0] == "e" and t[1] % 4 != 0 for t in rp.tokens):
+            ctx.branch("non-string-token")
         # property oracle on the real objects: same lock object <=> same token
         for a, b in itertools.combinations(live, 2):
             same_tok = rp.objs[a].token == rp.objs[b].token
@@ -313,9 +341,9 @@ def _gen_ops(rng, n, allow_acquire=True):
             if c < 0.45:
                 ops.append(["new", None]); tokens.append(("u", nuuid)); nuuid += 1
             elif c < 0.55:
-                ops.append(["new", "falsy"]); tokens.append(("u", nuuid)); nuuid += 1
+                ops.append(["new", "falsy", rng.randint(0, 5)]); tokens.append(("u", nuuid)); nuuid += 1
             else:
-                k = rng.randint(1, 3)
+                k = rng.randint(1, 5)
                 ops.append(["new", k]); tokens.append(("e", k))
             alive.append(True)
         elif r < 0.5:
@@ -336,6 +364,10 @@ def _gen_ops(rng, n, allow_acquire=True):
             ops.append(["drop", i]); alive[i] = False
         elif r < 0.86:
             ops.append(["gccollect"])
+        elif allow_acquire and r < 0.89:
+            i = rng.choice(live)
+            if tokens[i] not in held:       # `with lock:` blocks when the lock is taken: only on a free one
+                ops.append(["with", i])
         elif allow_acquire and r < 0.95:
             i = rng.choice(live)
             ops.append(["acquire", i])
